@@ -527,8 +527,8 @@ def job_plan(pid, modules, theorems, rule_extra, partial=""):
                 partial=partial)
 
 PLANS["C04"] = job_plan("C04", ["Wx.Job.C04Sim"], ["Jm.c04", "Jm.inv_runOps", "Jm.inv_stepOp"], "Oracle: at most one spawned-and-unreaped child at every point of the implementation trace.")
-PLANS["C06"] = job_plan("C06", ["Wx.Job.C06", "Wx.Job.C10b"],
-    ["Jm.graceful_stop_step", "Jm.graceful_restart_step", "Jm.signalChild_log", "Jm.timer_fires", "Jm.timer_not_early", "Jm.held_back", "Jm.killReap_log", "Jm.expiry_kills",
+PLANS["C06"] = job_plan("C06", ["Wx.Job.C06", "Wx.Job.C10b", "Wx.Job.C06w"],
+    ["Jm.c06_no_early_kill", "Jm.c06_timer_not_short", "Jm.graceInv_simInv", "Jm.ext_handle", "Jm.handle_timer", "Jm.kill_in_spec", "Jm.graceful_stop_step", "Jm.graceful_restart_step", "Jm.signalChild_log", "Jm.timer_fires", "Jm.timer_not_early", "Jm.held_back", "Jm.killReap_log", "Jm.expiry_kills",
      "Jm.continue_clears", "Jm.no_extra_respawn_fixed", "Jm.extra_respawn_today", "Jm.c10_priority"],
     "Oracle: in scripts without forceful controls no kill happens before some graceful control's grace period has elapsed.")
 PLANS["C07"] = job_plan("C07", ["Wx.Job.C07b", "Wx.Job.C07w", "Wx.Job.C10c"],
